@@ -1,14 +1,14 @@
 """C09 -- transport failures become events, never exceptions or hangs."""
 import gc
 
-from .. import conncheck, connmodel, world as W
+from .. import conncheck, connmodel, framework as F, world as W
 
 SERVER = ['eof', 'text', 'ping', 'frag-text', 'frag-end', 'close-1000', 'silence', 'two', 'err']
 FAULTS = {
     'getaddrinfo': ['oserror', 'valueerror'],
     'socket': ['oserror', 'valueerror'],
     'connect': ['oserror', 'valueerror', 'timeout'],
-    'sendall': ['oserror', 'valueerror'],
+    'sendall': ['oserror', 'valueerror', 'runtimeerror'],
     'recv': ['oserror', 'valueerror', 'eof'],
     'wait': ['oserror', 'valueerror'],
 }
@@ -60,7 +60,7 @@ class C09(conncheck.ConnCheck):
     kinds = ('exception-escaped', 'no-termination', 'no-terminal-event', 'terminal-not-last', 'two-terminal-events', 'yield-after-stop',
              'socket-leak', 'selector-open', 'app-exception', 'graceful-flag', 'grammar', 'address-not-tried', 'connectfail-expected',
              'event-after-terminal', 'send-raised-but-wrote')
-    expect_sites = ('silent-tail', 'fault:getaddrinfo', 'fault:socket', 'fault:connect', 'fault:sendall', 'fault:recv', 'fault:wait', 'cut-eof', 'cut-err',
+    expect_sites = ('addresses', 'silent-tail', 'fault:getaddrinfo', 'fault:socket', 'fault:connect', 'fault:sendall', 'fault:recv', 'fault:wait', 'cut-eof', 'cut-err',
                     'two-addresses-failed', 'app-send-fault', 'tls')
 
     def rule(self, tier):
@@ -94,6 +94,81 @@ class C09(conncheck.ConnCheck):
                     'depth': 2, 'faults': 1, 'cuts': False, 'strict': False, 'max_dev': 2, 'connect': {'close_timeout': 10},
                     'timers': 'absolute', 'drop': (), 'silent_tail': True, 'only_ops': ['sendall', 'recv', 'wait']})
         return out
+
+    # ------------------------------------------------------------------ every resolved address is tried, on every attempt
+    ADDRS = ['10.0.0.1', '10.0.0.2', '10.0.0.3']
+
+    def jobs(self, tier, seed):
+        return super(C09, self).jobs(tier, seed) + [{'k': 'addresses', 'attempts': 3 if tier == 'thorough' else 2}]
+
+    def run_job(self, job):
+        if job.get('k') == 'addresses':
+            return self.addresses_job(job)
+        return super(C09, self).run_job(job)
+
+    def run_attempts(self, refusals, tls=False):
+        """Several connection attempts on ONE object; in attempt k the addresses in refusals[k] refuse the connection."""
+        seen = {}
+
+        def server(world, conn):
+            i = seen.get(conn.idx, 0)
+            seen[conn.idx] = i + 1
+            return W.Data(W.HANDSHAKE(b'')) if i == 0 else W.Eof()
+        world = W.World(server, max_waits=30 * len(refusals), addrs=[(a, None) for a in self.ADDRS])
+        out = []
+        with world:
+            ws = W.L_websocket.WebSocket('wss://example.com/x' if tls else 'ws://example.com/x', proxies={})
+            world._ws = ws
+            for refused in refusals:
+                world.refuse_addrs = set(refused)
+                c0, n0, e0 = len(world.calls), len(world.conns), len(world.events)
+                run = W.drive(world, ws, ws.connect(poll=5, ping_rate=0, close_timeout=None))
+                tried = [c[3][0] for c in world.calls[c0:] if c[2] == 'connect']
+                out.append((run, tried, [c for c in world.conns[n0:]], [e.event.name for e in world.events[e0:]]))
+        return out
+
+    def addresses_job(self, job):
+        import itertools
+        res = F.JobResult()
+        res.covered.add('addresses')
+        subsets = [c for r in range(len(self.ADDRS) + 1) for c in itertools.combinations(self.ADDRS, r)]
+        for tls in (False, True):
+            for refusals in itertools.product(subsets, repeat=job['attempts']):
+                if tls and job['attempts'] > 2 and len(refusals[0]) == 1:
+                    continue
+                attempts = self.run_attempts(refusals, tls)
+                res.executions += 1
+                res.n_transitions += len(refusals)
+                res.outcomes[repr((tls, tuple(tuple(t[1]) for t in attempts)))] += 1
+                case = {'k': 'addresses', 'refusals': [list(r) for r in refusals], 'tls': tls}
+                for k, ((run, tried, conns, names), refused) in enumerate(zip(attempts, refusals)):
+                    want = []
+                    for a in self.ADDRS:
+                        want.append(a)
+                        if a not in refused:
+                            break
+                    if run.escaped is not None or not run.finished:
+                        res.violate('C09:addresses:exception-escaped', 'attempt #%d: %r' % (k, run.escaped), case)
+                    elif tried != want:
+                        res.violate('C09:addresses:not-all-tried', 'attempt #%d on one object with %r refusing: connect() was called on %r, expected %r '
+                                    '(each resolved address is tried before giving up)' % (k, sorted(refused), tried, want), case)
+                    elif len(refused) == len(self.ADDRS) and 'connect_fail' not in names:
+                        res.violate('C09:addresses:connectfail-expected', 'attempt #%d: every address refused but events %r' % (k, names), case)
+                    elif len(refused) < len(self.ADDRS) and 'connected' not in names:
+                        res.violate('C09:addresses:connected-expected', 'attempt #%d: %r accepts but events %r' % (k, want[-1], names), case)
+                    if not all(c.closed for c in conns):
+                        res.violate('C09:addresses:socket-leak', 'attempt #%d: close() not called on socket(s) #%s' % (k, [c.idx for c in conns if not c.closed]), case)
+        res.samples.append({'addresses': self.ADDRS, 'attempts': job['attempts']})
+        return res
+
+    def replay(self, case, verbose=True):
+        if case.get('k') == 'addresses':
+            res = self.addresses_job({'attempts': len(case['refusals'])})
+            if verbose:
+                for run, tried, conns, names in self.run_attempts([tuple(r) for r in case['refusals']], case['tls']):
+                    print('attempt: connect() on', tried, 'events', names)
+            return [v for v in res.violations if v.case == case]
+        return super(C09, self).replay(case, verbose)
 
     def make_model(self, ex, cfg):
         m = FaultModel(ex, cfg)
@@ -145,7 +220,7 @@ class C09(conncheck.ConnCheck):
         # fault was an arbitrary non-socket exception (which is not a transport failure) is a descriptor that has merely become
         # unreachable accepted as released.
         model.problems = [(k, m) for k, m in model.problems if k != 'socket-open']
-        arbitrary = any(kind == 'valueerror' for _, kind in model.injected)
+        arbitrary = any(kind in ('valueerror', 'runtimeerror') for _, kind in model.injected)
         if run.finished and not all((c.released() if arbitrary else c.closed) for c in world.conns):
             model.problems.append(('socket-leak', 'close() was not called on socket(s) #%s although the iterator has ended (faults %s, events %s)'
                                    % ([c.idx for c in world.conns if not c.closed], model.injected, model.seen_names)))
